@@ -144,6 +144,10 @@ fn pieces(path: &Path, t: &Transform) -> Option<Vec<Piece>> {
 /// not reach it. None: no statement (coordinates outside the working range, singular transform).
 pub fn certainly_uncovered(path: &Path, t: &Transform, w: i32, h: i32) -> Option<Vec<bool>> {
     t.inverse()?;
+    // pixels x segments: not on the rare very large surfaces, nor for the rare crowded paths
+    if (w as i64) * (h as i64) * (path.ops.len() as i64) > 6_000_000 {
+        return None;
+    }
     let pcs = pieces(path, t)?;
     let evenodd = matches!(path.winding, Winding::EvenOdd);
     let mut out = vec![false; (w * h).max(0) as usize];
@@ -211,6 +215,9 @@ pub fn first_impossible(cov: &[u8], path: &Path, t: &Transform, w: i32, h: i32) 
 pub fn stroke_certainly_uncovered(path: &Path, width: f32, miter_limit: f32, square_caps: bool, miter_joins: bool, t: &Transform, w: i32, h: i32) -> Option<Vec<bool>> {
     t.inverse()?;
     if !(width > 0.) || !width.is_finite() || !miter_limit.is_finite() {
+        return None;
+    }
+    if (w as i64) * (h as i64) * (path.ops.len() as i64) > 6_000_000 {
         return None;
     }
     let pcs = pieces(path, t)?;
